@@ -290,7 +290,7 @@ def binding_selftest(ctx, traces, handles=(1, 2, 3), base=(1, 2)):
 
 
 # ----------------------------------------------------------------------------- JIT off
-def _json_close(a, b, path=""):
+def _json_close(a, b, path="", tol=1e-12):
     """Tolerant comparison of two jsonable fingerprints (gridjitoff.jsonable)."""
     if isinstance(a, dict) and isinstance(b, dict):
         if set(a) != set(b):
@@ -301,11 +301,11 @@ def _json_close(a, b, path=""):
             for x, y in zip(a["f"], b["f"]):
                 if (x is None) != (y is None):
                     return False, path + ":nan pattern"
-                if x is not None and abs(x - y) > 1e-12 + 1e-12 * abs(y):
+                if x is not None and abs(x - y) > tol + tol * abs(y):
                     return False, path + ":values differ by %.3g" % abs(x - y)
             return True, ""
         for k in a:
-            ok, w = _json_close(a[k], b[k], path + "/" + str(k))
+            ok, w = _json_close(a[k], b[k], path + "/" + str(k), tol)
             if not ok:
                 return ok, w
         return True, ""
@@ -313,11 +313,14 @@ def _json_close(a, b, path=""):
         if len(a) != len(b):
             return False, path + ":length"
         for i, (x, y) in enumerate(zip(a, b)):
-            ok, w = _json_close(x, y, path + "[%d]" % i)
+            ok, w = _json_close(x, y, path + "[%d]" % i, tol)
             if not ok:
                 return ok, w
         return True, ""
     return (a == b), ("" if a == b else path + ":%r != %r" % (a, b))
+
+
+FLOAT32_SOURCES = {"quadhex"}
 
 
 def jit_off_run(ctx, jobs, panel_sources, panel_ops):
@@ -350,7 +353,9 @@ def jit_off_run(ctx, jobs, panel_sources, panel_ops):
             if mine["raised"] != theirs["raised"]:
                 ctx.violation("jit|%s|%s" % (s, op), "JitIndependent", detail="outcome class differs: JIT on raised=%s, JIT off raised=%s" % (mine["raised"], theirs["raised"]), sig={"clause": "JitIndependent", "act": op.split(":")[0]}, replay={"source": s, "op": op})
             elif not mine["raised"]:
-                ok, where = _json_close(mine["fp"], theirs["fp"])
+                # a source stored in single precision is compared at single precision: compiled and
+                # interpreted code promote float32 operands differently, far below the inputs' own precision
+                ok, where = _json_close(mine["fp"], theirs["fp"], tol=1e-6 if s in FLOAT32_SOURCES else 1e-12)
                 if not ok:
                     ctx.violation("jit|%s|%s" % (s, op), "JitIndependent", detail=where, sig={"clause": "JitIndependent", "act": op.split(":")[0]}, replay={"source": s, "op": op})
     ctx.note("jit_off", {"histories": len(out["traces"]), "panel_observations": n})
